@@ -1,44 +1,32 @@
-"""Development driver: verify every contract of a contracts module and print the verdicts."""
-import importlib
+"""Development driver: python -m pyvc.run <substring of contract key> ... (verifies matching contracts)."""
 import sys
 import time
 
 import z3
 
-from .contracts import ContractDB, verify_function
-
-
-def solve(ob, timeout_ms=20000):
-    s = z3.Solver()
-    s.set("timeout", timeout_ms)
-    from . import builtins_model as bm
-    s.add(*bm.AXIOMS)
-    s.add(*ob.pc)
-    s.add(z3.Not(ob.goal))
-    t0 = time.time()
-    from .engine import hard_check
-    r = hard_check(s, timeout_ms / 1000.0)
-    return r, time.time() - t0, (s.model() if r == z3.sat else None)
-
 
 def main():
     sys.path.insert(0, "/verif")
-    db = ContractDB()
-    db.inline.add("calendar:isleap")
-    for m in sys.argv[1:]:
-        importlib.import_module("contracts." + m).register(db)
+    from .check import build_db, solve_obligation
+    from .contracts import verify_function
+
+    db = build_db()
+    pats = sys.argv[1:]
     for key, c in db.contracts.items():
-        if c.trusted or c.inline:
+        if c.trusted or c.inline or not any(p in key or p in c.properties for p in pats):
             continue
         res = verify_function(db, c)
         print(f"== {key}: paths={res.paths} obligations={len(res.obligations)} t={res.seconds:.2f}s error={res.error}")
         for ob in res.obligations:
-            from .check import solve_obligation
             r, solver, dt, model, _ = solve_obligation(ob, 20, "/tmp", "dev")
-            r = r + "/" + solver
-            print(f"   {ob.name:60s} {str(r):18s} {dt:.2f}s  {ob.info.get('clause','')[:60]}")
-            if model is not None:
-                print("      model:", {str(d): model[d] for d in model.decls()[:12]})
+            if r != "unsat" or "-v" in pats:
+                print(f"   {ob.name:60s} {r + '/' + solver:18s} {dt:.2f}s  {ob.info.get('clause','')[:70]}")
+                if model is not None:
+                    from .check import value_from_model
+                    try:
+                        print("      model:", {k: value_from_model(model, res.heap0, v) for k, v in res.param_values.items()})
+                    except Exception as e:
+                        print("      model error", e)
 
 
 if __name__ == "__main__":
